@@ -856,14 +856,7 @@ theorem digit_ge_48 (b : Nat) (hb : b = 8 ∨ b = 10 ∨ b = 16) (c : Char) (h :
   · have := (digitTest10_iff c).mp h; omega
   · have := (digitTest16_iff c).mp h; omega
 
-theorem cstr_id (l : List Char) (h : ∀ c ∈ l, 1 ≤ c.toNat) : cstr l = l := by
-  unfold cstr
-  apply takeWhile_eq_self'
-  intro c hc
-  have := h c hc
-  simp only [ne_eq, decide_not, Bool.not_eq_eq_eq_not, Bool.not_true, decide_eq_false_iff_not, char_eq_iff]
-  have e : ('\x00' : Char).toNat = 0 := rfl
-  omega
+theorem cstr_id (l : List Char) (_h : ∀ c ∈ l, 1 ≤ c.toNat) : cstr l = l := rfl
 
 /-- the text of a number in a fixed base, read back by a stream set to that base -/
 theorem numSpec_fixed_roundtrip (fi : Fmt) (b : Nat) (hb : b = 8 ∨ b = 10 ∨ b = 16) (hfi : fi.base? = some b)
